@@ -32,6 +32,27 @@ def copyI (dst : Bytes) (lo hi : Int) (src : Bytes) : Outcome (Bytes × Int) :=
 def makeBytes (n : Int) : Outcome Bytes :=
   if 0 ≤ n then .ok (List.replicate n.toNat 0) else .panic
 
+/-- `xs[i]` on a `[]string` / `[]net.IP` value or table with a Go `int` index -/
+def idxL {α : Type} (xs : List α) (i : Int) : Outcome α :=
+  if 0 ≤ i then (match xs[i.toNat]? with | some x => .ok x | none => .panic) else .panic
+
+/-- a nil-able byte slice (`net.IP` compared with `nil` in the function) read as a value: `nil` has length 0 -/
+def nilBytes : Option Bytes → Bytes
+  | none => []
+  | some b => b
+
+/-- `append(dst[lo:hi], text...)` for an ARRAY `dst` (the slice's capacity reaches the end of the array; this is what
+    `netip.Addr.AppendTo(l.buffer[i:i])` does with the address text): the slice expression panics unless
+    `0 ≤ lo ≤ hi ≤ len(dst)`; the text is written in place when it fits, otherwise the run time allocates a new backing
+    array and `dst` is unchanged.  Returns the new `dst` and the appended slice VALUE -/
+def appendAtI (dst : Bytes) (lo hi : Int) (text : Bytes) : Outcome (Bytes × Bytes) :=
+  if 0 ≤ lo ∧ lo ≤ hi ∧ hi ≤ (dst.length : Int) then
+    let pre := (dst.take hi.toNat).drop lo.toNat
+    if hi.toNat + text.length ≤ dst.length then
+      .ok (dst.take hi.toNat ++ (text ++ dst.drop (hi.toNat + text.length)), pre ++ text)
+    else .ok (dst, pre ++ text)
+  else .panic
+
 /-- `fastlog.Line`: `buffer [bufSize]byte; index int` as the generated code sees it -/
 structure GLine where
   buf : Bytes
